@@ -217,20 +217,14 @@ var listTermKinds = []ltkind{
 	}},
 	{"list.FoldMap", func(x *mc.X, pos int, red bool) lterm {
 		m := monoids[x.Choose(len(monoids), "monoid")]
-		return lterm{label: "list.FoldMap(" + m.name + ", v+1)", ref: func(in []int) string {
-			acc := m.empty
-			for _, v := range in {
-				acc = m.combine(acc, v+1)
-			}
-			return sprint(acc)
-		}, run: func(e *env, cb *int, l fp.List[int]) string {
-			return sprint(list.FoldMap[int, int](l, imonoid{e, cb, m.combine, m.empty}, func(v int) int { e.tick(); return v + 1 }))
+		return lterm{label: "list.FoldMap(" + m.name + ")", ref: refReduce(m), run: func(e *env, cb *int, l fp.List[int]) string {
+			return sprint(list.FoldMap[int, int](l, imonoid{e, cb, m.combine, m.empty}, func(v int) int { e.tick(); return encSingle(v) }))
 		}}
 	}},
 	{"list.Reduce", func(x *mc.X, pos int, red bool) lterm {
 		m := monoids[x.Choose(len(monoids), "monoid")]
 		return lterm{label: "list.Reduce(" + m.name + ")", ref: refReduce(m), run: func(e *env, cb *int, l fp.List[int]) string {
-			return sprint(list.Reduce[int](l, imonoid{e, cb, m.combine, m.empty}))
+			return sprint(list.Reduce[int](lglue(l, encSingle), imonoid{e, cb, m.combine, m.empty}))
 		}}
 	}},
 	{"list.FoldTry", func(x *mc.X, pos int, red bool) lterm {
